@@ -219,3 +219,81 @@ func rewriteBoolReturns(info *types.Info, body *ast.BlockStmt) {
 	}
 	fix(body.List, false)
 }
+
+// normalizeVarDecls: inside function bodies `var x = e` / `var ( a = e1; b = e2 )` say what `x := e` says (the declared
+// type, if any, is the static type the type checker already recorded for x). The rules are written against
+// assignments, so initialised variable declarations are rewritten into short variable declarations, one per
+// specification and in order; declarations without a value (var x T) stay as they are. The identifiers keep their
+// objects.
+func normalizeVarDecls(pkg *packages.Package) {
+	for _, file := range pkg.Syntax {
+		for _, d := range file.Decls {
+			fd, ok := d.(*ast.FuncDecl)
+			if !ok || fd.Body == nil {
+				continue
+			}
+			ast.Inspect(fd.Body, func(x ast.Node) bool {
+				var list *[]ast.Stmt
+				switch b := x.(type) {
+				case *ast.BlockStmt:
+					list = &b.List
+				case *ast.CaseClause:
+					list = &b.Body
+				case *ast.CommClause:
+					list = &b.Body
+				default:
+					return true
+				}
+				var out []ast.Stmt
+				changed := false
+				for _, st := range *list {
+					ds, ok := st.(*ast.DeclStmt)
+					if !ok {
+						out = append(out, st)
+						continue
+					}
+					gd, ok := ds.Decl.(*ast.GenDecl)
+					if !ok || gd.Tok != token.VAR {
+						out = append(out, st)
+						continue
+					}
+					var keep []ast.Spec
+					var repl []ast.Stmt
+					okAll := true
+					for _, sp := range gd.Specs {
+						vs := sp.(*ast.ValueSpec)
+						if len(vs.Values) == 0 {
+							keep = append(keep, sp)
+							// a value-less spec between initialised ones keeps its place
+							repl = append(repl, &ast.DeclStmt{Decl: &ast.GenDecl{TokPos: vs.Pos(), Tok: token.VAR, Specs: []ast.Spec{vs}}})
+							continue
+						}
+						blank := true
+						var lhs []ast.Expr
+						for _, nm := range vs.Names {
+							lhs = append(lhs, nm)
+							if nm.Name != "_" {
+								blank = false
+							}
+						}
+						if blank {
+							okAll = false
+							break
+						}
+						repl = append(repl, &ast.AssignStmt{Lhs: lhs, TokPos: vs.Pos(), Tok: token.DEFINE, Rhs: vs.Values})
+					}
+					if !okAll || len(repl) == len(keep) {
+						out = append(out, st)
+						continue
+					}
+					out = append(out, repl...)
+					changed = true
+				}
+				if changed {
+					*list = out
+				}
+				return true
+			})
+		}
+	}
+}
